@@ -4,8 +4,8 @@
    real C++ on every check (see prop.py). *)
 From Coq Require Import ZArith List Bool Permutation.
 From MomoCommon Require Import GenPrelude.
-From C08 Require Gen_GrowCapacity Gen_ArrayBucket Gen_ArrayBucket_cnt Gen_ArrayBucket_s Gen_HashMultiMap Gen_VersionCheck Gen_VersionCheck_a Gen_WrapEq Gen_WrapErase Gen_AB_ops Gen_AB_copy Gen_PairIterator Gen_RemoveIf.
-From C08 Require Import GenWrapPrims ArrayBucketModel GenRefine GenSkeleton GenIterator GenWrapRefine GenRemoveIf MultiMapModel WrapperModel VersionModel Examples.
+From C08 Require Gen_GrowCapacity Gen_ArrayBucket Gen_ArrayBucket_cnt Gen_ArrayBucket_s Gen_HashMultiMap Gen_VersionCheck Gen_VersionCheck_a Gen_WrapEq Gen_WrapErase Gen_AB_ops Gen_AB_copy Gen_PairIterator Gen_RemoveIf Gen_HeapArray.
+From C08 Require Import GenWrapPrims ArrayBucketModel GenRefine GenSkeleton GenHeapArray GenIterator GenWrapRefine GenRemoveIf MultiMapModel WrapperModel VersionModel Examples.
 Import ListNotations.
 Local Open Scope Z_scope.
 
@@ -684,3 +684,29 @@ Theorem C08_remove_if_trace_counts_removed_pairs :
   Z.of_nat (count_true (rm_trace p (fst m))) = ver_delta M m (ORemoveIf p).
 Proof. exact rm_trace_count. Qed.
 Print Assumptions C08_remove_if_trace_counts_removed_pairs.
+
+(* ------------------------------------------------------------------ final round: the heap Array behind the AddBackCrt / RemoveBack skeletons *)
+(* the heap branch that C08_gen_add_back_skeleton leaves to the Array: the REAL Array::AddBackCrt / pvAddBackNogrow / pvAddBackGrow /
+   pvGrowCapacity (regenerated, count and capacity of mData as scalars) composed with the generated Settings::GrowCapacity is the
+   model's add_back on a heap array -- in place below the capacity, else GrowCapacity(capacity, count + 1) and Reset *)
+Theorem C08_gen_heap_add_back :
+  forall (M cnt cap : Z), 1 <= cnt <= cap -> cap < 2 ^ 62 ->
+  match gen_heap_add cnt cap with
+  | Ok (_, cnt', cap') => add_back M (RHeap cap cnt) = RHeap cap' cnt'
+  | _ => False
+  end.
+Proof. exact heap_add_back_via_generated. Qed.
+Print Assumptions C08_gen_heap_add_back.
+
+(* the heap branch of RemoveBack: the REAL Array::RemoveBack (count - 1) and, when the RemoveBack skeleton decides to shrink,
+   the REAL Array::Shrink(count * 2) (Reset path) are the model's remove_back on a heap array *)
+Theorem C08_gen_heap_remove_back :
+  forall (cap cnt : Z), 2 <= cnt <= cap -> cap < 2 ^ 62 ->
+  match gen_heap_remove_back cnt cap with
+  | Ok (_, c1) =>
+      let '(c2, k2) := if (2 <? cnt) && (cnt <=? cap / 4) then gen_heap_shrink c1 cap (cnt * 2) else (c1, cap) in
+      remove_back (RHeap cap cnt) = RHeap k2 c2
+  | _ => False
+  end.
+Proof. exact heap_remove_back_via_generated. Qed.
+Print Assumptions C08_gen_heap_remove_back.
